@@ -237,7 +237,7 @@ CHECKS["C04"] = {
         {"pkg": ".", "run": "^TestVerif_C04_", Q: {"timeout": 900}, T: {"timeout": 3400, "shards": 16}},
     ],
     "mandatory_labels": {"all": ["batch>=2", "reopen-at-end", "one-batch-replica", "two-writers", "consecutive-same-subject",
-                                 "multimember-group", "contact-group", "g/several-writers", "g/batch-vs-single", "g/reindex", "g/created-by-writer-0"]},
+                                 "multimember-group", "contact-group", "g/several-writers", "g/batch-vs-single", "g/reindex", "g/created-by-writer-0", "subject-chains"]},
 }
 
 CHECKS["C07"] = {
@@ -253,7 +253,7 @@ CHECKS["C07"] = {
     "units": [
         {"pkg": ".", "run": "^TestVerif_C07_", Q: {"timeout": 900}, T: {"timeout": 3400, "shards": 16}},
     ],
-    "mandatory_labels": {"all": ["seq/refusal", "seq/implicit-path", "seq/backfill", "seq/malformed-input", "seq/reopen-mid-sequence"]},
+    "mandatory_labels": {"all": ["seq/refusal", "seq/implicit-path", "seq/backfill", "seq/malformed-input", "seq/reopen-mid-sequence", "service", "service/re-enqueue-while-to-request"]},
 }
 
 CHECKS["C13"] = {
@@ -398,6 +398,8 @@ _ADDED = {
 }
 for _k, _v in _ADDED.items():
     CHECKS[_k]["level_text"] += ". " + _v
+_ADDED3 = {"C07": "Service layer: generated sequences in which enqueue / discard / accept / block / unblock go through the protocol service's RPCs, compared with the same reference lifecycle."}
+CHECKS["C07"]["level_text"] += ". " + _ADDED3["C07"]
 _ADDED2 = {"C02": "Concurrent half: controlled schedules (DFS + rapid) of overlapping opens (with duplicates) and registration / re-delivery on an instrumented secret store; afterwards everything sealed after the registered counter opens in order."}
 CHECKS["C02"]["level_text"] += ". " + _ADDED2["C02"]
 CHECKS["C02"]["technique"] += "; generated-schedule exploration for overlapping arrivals"
